@@ -51,12 +51,12 @@ def connectPayloadV5 (f : ConnectFlags) : List Item :=
 
 /-- The fields of a frame; the CONNECT payload is parsed in a second step (its layout depends on
 the Connect Flags) and spliced in. -/
-def fieldsV5 (fr : Frame) : Option (List Field) := do
-  let fs ← parseBody (layoutV5 fr.ptype fr.flags fr.body.length) fr.body
+def fieldsV5 (minimal : Bool) (fr : Frame) : Option (List Field) := do
+  let fs ← parseBody minimal (layoutV5 fr.ptype fr.flags fr.body.length) fr.body
   match fr.ptype, fs with
   | .connect, [name, level, .val (.byte cf), keepAlive, props, .rest payload] =>
     let f ← connectFlags? cf
-    let ps ← parseBody (connectPayloadV5 f) payload
+    let ps ← parseBody minimal (connectPayloadV5 f) payload
     some ([name, level, .val (.byte cf), keepAlive, props] ++ ps)
   | _, _ => some fs
 
@@ -215,12 +215,15 @@ def projectV5 (t : PType) (flags : UInt8) (fs : List Field) : Option PacketV5 :=
 
 /-- `some (p, total)` iff `bs` starts with a well-formed MQTT 5.0 control packet of `total` bytes
 whose field values are `p`. -/
-def parseV5 (bs : Bytes) : Option (PacketV5 × Nat) := do
-  let fr ← splitFrame true bs
-  let fs ← fieldsV5 fr
+def parseV5With (minimal : Bool) (bs : Bytes) : Option (PacketV5 × Nat) := do
+  let fr ← splitFrame minimal true bs
+  let fs ← fieldsV5 minimal fr
   guard (validV5 fr.ptype fr.flags fs)
   let p ← projectV5 fr.ptype fr.flags fs
   some (p, fr.total)
+
+/-- The specification proper: every Variable Byte Integer minimally encoded ([MQTT-1.5.5-1]). -/
+def parseV5 (bs : Bytes) : Option (PacketV5 × Nat) := parseV5With true bs
 
 /-- The model's PUBLISH has one Subscription Identifier slot: `none` iff there are several. -/
 def toModelV5 (p : PacketV5) : Option Packet :=
@@ -228,6 +231,11 @@ def toModelV5 (p : PacketV5) : Option Packet :=
 
 def decodeV5 (bs : Bytes) : Option (Packet × Nat) :=
   (parseV5 bs).bind fun (p, n) => (toModelV5 p).map (·, n)
+
+/-- The same grammar with non-minimal Variable Byte Integers tolerated (NOT the standard:
+used only to state what a decoder accepts beyond the specification). -/
+def decodeV5Loose (bs : Bytes) : Option (Packet × Nat) :=
+  (parseV5With false bs).bind fun (p, n) => (toModelV5 p).map (·, n)
 
 /-! ## examples (frames typed by hand) -/
 section Examples
